@@ -41,6 +41,7 @@ func init() {
 		Explanation: "Decides: R1 normalisation agreement — every string the Hosts methods pass into their private tree (Add pattern, Delete pattern, the path looked up by Match) is the result of strings.ToLower; R2 index coherence of the shared tree code (= C03.R1/R2); R3 the port cut is behind `i != -1` and validOptionalPort of the cut text, bracket stripping behind both HasPrefix '[' and HasSuffix ']'. " +
 			"R11 (= C02.R3) stable sort by priority after every insertion. " +
 			"R12 (= C03.R17) the sort key reads only the segment; R13 (= C06.R5) the lock option reaches the tree. " +
+			"R14 (= C02.R21) the split point of two domain patterns. " +
 			"Not decided: correctness of the normalisation for every Host string; resolution semantics (C02).",
 		Assumptions: commonAssumptions,
 		Run: func(c *Ctx) {
@@ -61,6 +62,7 @@ func init() {
 			ruleSortAfterInsert(c, "R11")
 			ruleSortKeyIsFixedAtInsertion(c, "R12")
 			ruleLockOptionReachesTree(c, "R13")
+			ruleSplitPointAutomaton(c, "R14")
 		},
 	})
 	register(&Spec{
